@@ -770,3 +770,32 @@ Proof. vm_compute. reflexivity. Qed.
 
 Lemma tiny_window_fails : window cfg_tiny init (wrap_witness 3) = false /\ no_reuse cfg_tiny init (wrap_witness 3) = false.
 Proof. split; vm_compute; reflexivity. Qed.
+
+(* ------------------------------------------------------------------ used by the replay driver *)
+(* the guards quantify (... || dead) over all callers: restricting the state to the callers that
+   are not dead does not change their value (extract/drv_c09.ml evaluates them that way) *)
+Definition restrict_live (st : mstate) : mstate :=
+  set_callers st (filter (fun kc => negb (dead st (fst kc) (snd kc))) (callers st)).
+
+Lemma forallb_filter_skip {A} (f p : A -> bool) l :
+  (forall x, p x = false -> f x = true) -> forallb f (filter p l) = forallb f l.
+Proof.
+  intros H. induction l as [|x l IH]; [reflexivity|]. cbn [filter forallb].
+  destruct (p x) eqn:E; cbn [forallb]; rewrite IH; [reflexivity|]. rewrite (H x E). reflexivity.
+Qed.
+
+Lemma guards_ignore_dead c st l :
+  no_reuse_step c (restrict_live st) l = no_reuse_step c st l /\
+  window_step c (restrict_live st) l = window_step c st l.
+Proof.
+  destruct l; try (split; reflexivity). cbn [no_reuse_step window_step restrict_live set_callers callers counter].
+  split.
+  - change (forallb (fun kc => negb (keqb (ckey (snd kc)) (dest, index_of (counter st + 1) (mask c))) || dead st (fst kc) (snd kc))
+                    (filter (fun kc => negb (dead st (fst kc) (snd kc))) (callers st)) = 
+            forallb (fun kc => negb (keqb (ckey (snd kc)) (dest, index_of (counter st + 1) (mask c))) || dead st (fst kc) (snd kc)) (callers st)).
+    apply forallb_filter_skip. intros x Hx. apply negb_false_iff in Hx. rewrite Hx. apply orb_true_r.
+  - change (forallb (fun kc => (counter st + 1 - fst kc <=? mask c) || dead st (fst kc) (snd kc))
+                    (filter (fun kc => negb (dead st (fst kc) (snd kc))) (callers st)) =
+            forallb (fun kc => (counter st + 1 - fst kc <=? mask c) || dead st (fst kc) (snd kc)) (callers st)).
+    apply forallb_filter_skip. intros x Hx. apply negb_false_iff in Hx. rewrite Hx. apply orb_true_r.
+Qed.
